@@ -18,13 +18,22 @@ reading `QkCall.op` / `CqOp.op` / `SyGate.op`, validated numerically by the harn
 Proved here for ALL gate lists / circuits (induction over the exporter loop):
 * `qiskit_translation`, `cirq_translation`, `sympy_translation` – for every quirk setting, whenever
   the exporter returns, the export reads as the circuit (nop gates dropped);
-* `qasm_text_shape`, `qasm_roundtrip` – the emitted declaration is read back as (name, formals,
-  one line per non-nop gate) under the decidable `qasmReadable`;
-* `qasm_formals_full` – repaired exporter: exactly one formal per qubit, in index order;
-* `C13_partial` – the conjunction of the above, for every quirk setting (code as it is and
-  repaired); its doc comment names what is missing with respect to `C13_statement`;
-* `…_witness` – concrete inputs on which the model of the code as it is violates the property
-  (one per open finding, by `decide`).
+* `qiskit_total`, `cirq_total`, `sympy_total`, `qasm_total` – the repaired exporters do return on
+  every well-formed circuit over their exportable gate set;
+* `qasm_text_shape`, `qasm_roundtrip`, `qasm_body_lines` – the emitted declaration is read back as
+  (name, formals, one line per non-nop gate) under the decidable `qasmReadable`;
+* `qasm_formals_full`, `qasm_wire_position` – one formal per qubit, in index order;
+* `qasm_name_reading`, `qasm_resolves_q`, `qasm_resolves` – every printed gate name is read back as
+  the class's base gate / number of controls, and the read-back declaration applies exactly the
+  circuit's non-nop gates on the positions of their qubits;
+* `qasm_wellNamed_readable` – `qasmReadable` and distinct formals follow from the decidable
+  `wellNamed` (a condition on the circuit's names only) and `paramsPlain`;
+* `qasm_asis_resolves` – all of the QASM part for the code as it is (only `{p:.2f}` unrepaired);
+* `C13_full : C13_statement` – the whole statement for the repaired model;
+* `C13_partial` – the conditional claims for every quirk setting;
+* `…_witness` – concrete inputs (by `decide`): one per listed defect (three of them repaired in
+  the code since), `qasm_unknown_inner_witness` (why the gate-set condition is needed) and
+  `qasm_fallback_clash_witness` (why `wellNamed` excludes a name equal to a fallback `q<i>`).
 -/
 namespace QV.C13
 open QV QV.Export
@@ -296,14 +305,12 @@ theorem C13_full : C13_statement := by
   obtain ⟨text, d, h1, h2, h3, h4, h5⟩ := qasm_resolves fv ver c hwf he hr hnd
   exact ⟨text, d, _, h1, (qasm_text_shape Quirks.none fv ver c text h1).1, h2, h3, h4, h4 ▸ hnd, h5, rfl⟩
 
-/-- What is proved of `C13_statement` (for every quirk setting `q`, so in particular for the code
-as it is and for the repaired code): *if* an exporter returns, its output reads as the circuit;
-the QASM declaration is read back line by line; the repaired exporter's formals are one per qubit
-in index order and resolve to their own position.
-Missing with respect to `C13_statement`: (1) that each exporter does return on its exportable
-gate set (`∃ calls, … = .ok calls`), (2) that the read-back lines resolve to the circuit's
-operations (`declOps d = some (gates.filterMap gateTOp)`), (3) the in-order/one-name-per-qubit
-case of the *unrepaired* formals.  These three are covered by the correspondence only. -/
+/-- The conditional part, for *every* quirk setting `q` (so in particular for the code as it is
+and for every partially repaired variant): *if* an exporter returns, its output reads as the
+circuit; the QASM declaration is read back line by line; the repaired exporter's formals are one
+per qubit in index order.  `C13_full` adds, for the repaired model, that the exporters do return
+and that the lines resolve to the circuit's operations; `qasm_asis_resolves` does the same for
+the QASM exporter as it is. -/
 theorem C13_partial (q : Quirks) (fv : FloatOf) (c : Circ) (hwf : circWF fv c.numQubits c.gates) :
     (∀ gm calls, exportQiskit q fv gm c.gates = .ok calls →
       calls.filterMap QkCall.op = c.gates.filterMap gateOp) ∧
